@@ -333,7 +333,11 @@ C11_TxReportsClass ==
 
 \* a refused change does fail (it is not silently retried or marked applied)
 C11_RefusalFailsAt(st) ==
+    \* (the process may stop between the device's answer and its recording: the change is then sent, and refused,
+    \* again once the target is connected and synchronized - until then it is still being applied, never applied)
     st => \A k \in Applies : (IsRefusal(devlog[k].code) /\ devlog[k].id \in DOMAIN props) =>
-        props[devlog[k].id].ph.app = "F"
+        LET p == props[devlog[k].id] IN
+        \/ p.ph.app = "F"
+        \/ p.ph.app = "I" /\ ~(p.t \in DOMAIN cfgs /\ Synchronized(p.t) /\ DeviceWilling(p.t))
 C11_RefusalFails == C11_RefusalFailsAt(Stable)
 =============================================================================
